@@ -13,6 +13,8 @@ EXTRA = {
     "clone_schema": ["CREATE SCHEMA mytestschema_clone{i} CLONE testschema;"],
     "table_comment": ["CREATE TABLE tc{i} (a int, b int COMMENT 'col') COMMENT 'table c';"],
     "set2": ["SET statement_timeout = 0;"],
+    "set_empty": ["SET hivevar:suffix{i}=;"],                     # value '' (a falsy marker value)
+    "set_empty2": ["SET x{i} = ;", "SET mapred.job.name{i} = 0;"],
     "fk_multi": ["CREATE TABLE fm{i} (a int, b int, c int);", "ALTER TABLE fm{i} ADD CONSTRAINT fkm{i} FOREIGN KEY (a, b) REFERENCES sch.p (x, y);",
                  "CREATE UNIQUE INDEX ixm{i} ON fm{i} (c DESC, a);"],
     "alter_more": ["CREATE TABLE s.am{i} (a int, b int, c varchar(5));", "ALTER TABLE s.am{i} MODIFY COLUMN b bigint;", "ALTER TABLE s.am{i} DROP COLUMN c;",
@@ -20,7 +22,7 @@ EXTRA = {
     "partition": ["CREATE TABLE pt{i} (a int, b date) PARTITION BY RANGE (b);"],
     "partitioned": ["CREATE TABLE pd{i} (a int, b string) PARTITIONED BY (dt string, hr int);"],
 }
-EXTRA_KIND = {"clone_db": "databases", "clone_schema": "schemas", "set2": "ddl_properties"}
+EXTRA_KIND = {"clone_db": "databases", "clone_schema": "schemas", "set2": "ddl_properties", "set_empty": "ddl_properties", "set_empty2": "ddl_properties"}
 
 
 def all_kinds():
